@@ -48,6 +48,7 @@ package gohbase
 // retrymark[call] == round  <=>  the call has been collected for retry in the current SendBatch round (ghost)
 //@ pred gohbase.marksMonotone() = forall(c, (ghostold("retrymark", c) == ghost("round") ==> ghostat("retrymark", c) == ghost("round")) && (ghostat("retrymark", c) == ghostold("retrymark", c) || ghostat("retrymark", c) == ghost("round")))
 //@ pred gohbase.allMarked(retryables) = forall(p, 0 <= p && p < len(retryables), ghostat("retrymark", retryables[p]) == ghost("round") && ghostold("retrymark", retryables[p]) != ghost("round"))
+//@ pred gohbase.marksFrame(retryables) = forall(x, forall(p, 0 <= p && p < len(retryables), retryables[p] != x) ==> ghostat("retrymark", x) == ghostold("retrymark", x))
 //@ pred gohbase.distinctCalls(s) = forall(p, q, 0 <= p && p < q && q < len(s), s[p] != s[q])
 
 //@ func gohbase.(*client).waitForCompletion
@@ -56,7 +57,7 @@ package gohbase
 //@   modifies contents(results), X.regionstate, X.ctxdone, X.retrymark
 //@   at call append#1 ghost retrymark[rpc] == ghost("round")
 //@   at call append#2 ghost retrymark[rpc] == ghost("round")
-//@   ensures[C12] marksMonotone() && allMarked(retryables) && distinctCalls(retryables)
+//@   ensures[C12] marksMonotone() && allMarked(retryables) && distinctCalls(retryables) && marksFrame(retryables)
 //@   ensures[C07] wfcUnretry(rpcs, results, rpcToRes, len(rpcs), unretryableError || ghostat("ctxdone", ctx) == 1)
 //@   ensures[C07] forall(p, 0 <= p && p < len(retryables), results[rpcToRes[retryables[p]]].Error != nil)
 //@   loop 1 invariant wfcUnretry(rpcs, results, rpcToRes, i, unretryableError)
@@ -66,10 +67,10 @@ package gohbase
 //@   loop 1 exit-assert forall(p, 0 <= p && p < len(retryables), haskey(rpcToRes, retryables[p]) && results[rpcToRes[retryables[p]]].Error != nil && exists(k, 0 <= k && k < canceledIndex && retryables[p] == rpcs[k]))
 //@   loop 2 invariant forall(p, 0 <= p && p < len(retryables), haskey(rpcToRes, retryables[p]) && results[rpcToRes[retryables[p]]].Error != nil && exists(k, 0 <= k && k < canceledIndex && retryables[p] == rpcs[k]))
 //@   ensures[C12] forall(p, 0 <= p && p < len(retryables), retryables[p] != nil)
-//@   loop 1 invariant marksMonotone() && allMarked(retryables) && distinctCalls(retryables)
+//@   loop 1 invariant marksMonotone() && allMarked(retryables) && distinctCalls(retryables) && marksFrame(retryables)
 //@   loop 1 invariant forall(k, i <= k && k < len(rpcs), ghostat("retrymark", rpcs[k]) != ghost("round"))
 //@   loop 1 invariant forall(p, 0 <= p && p < len(retryables), retryables[p] != nil)
-//@   loop 1 exit-assert marksMonotone() && allMarked(retryables) && distinctCalls(retryables)
+//@   loop 1 exit-assert marksMonotone() && allMarked(retryables) && distinctCalls(retryables) && marksFrame(retryables)
 //@   loop 1 exit-assert forall(p, 0 <= p && p < len(retryables), retryables[p] != nil)
 //@   panics never[C07]
 //@   ensures[C07] wfcFrame(rpcs, results, rpcToRes, len(rpcs))
